@@ -22,6 +22,10 @@ def build_pools(ck, tier, rnd, langs=gen.LANGS):
             ts = corp
         else:
             ts = gen.WORDS["titles"][lang]
+        # titles containing the language's longer function words (they are matched like any other word)
+        fws = [text(w["w"]) for w in gen.LANGTAB[lang]["function_words"] if len(w["w"]) >= 5]
+        rnd.shuffle(fws)
+        ts = list(ts) + [fw + " " + rnd.choice(ts).split(" ")[0] for fw in fws[:8] if ts] + [rnd.choice(ts).split(" ")[0] + " " + fw for fw in fws[8:12] if ts]
         # the special shapes make up roughly a quarter of every pool
         ts = list(ts) + gen.SPECIAL_TITLES * max(1, round(len(ts) / (3.0 * len(gen.SPECIAL_TITLES))))
         pools[lang] = list(ts)
@@ -483,6 +487,7 @@ def cases_for(prop, tier, seed, pools, toks, ck):
         for lang in L:
             cases += gen.gen_store_relations("C07", lang, rnd, pools[lang], toks, per(4, 120))
             cases += gen.gen_store_relations("C07", lang, rnd, pools[lang], toks, per(1, 20), big=True)
+            cases += gen.gen_vocab_cases("C07", lang, rnd, pools[lang], toks, per(120, 1500))
         cases += gen.gen_huge_store_cases("C07", rnd.choice(L), rnd, pools["en"], per(1, 6))
     elif prop in ("C10", "C12"):
         for lang in L:
@@ -493,6 +498,7 @@ def cases_for(prop, tier, seed, pools, toks, ck):
         for lang in L:
             cases += gen.gen_histories("C01", lang, rnd, pools[lang], toks, per(10, 300), length=per(16, 30), adversarial=True)
             cases += gen.gen_joined_boundary_cases(lang, rnd, pools[lang], toks, per(6, 200))
+            cases += gen.gen_long_title_cases(lang, rnd)
     elif prop in ("C02", "C09"):
         for lang in L:
             cases += gen.gen_marker_cases(lang, rnd, pools[lang], toks, per(10, 300))
